@@ -66,6 +66,8 @@ type Gen struct {
 	maxRead int
 
 	vfs        *simVFS
+	callSeams  int // storage calls since the current API call began
+	callCap    int
 	pendingDel []pendingDeletes
 	flushing   []*sched.Task
 }
@@ -133,12 +135,48 @@ func (g *Gen) enter(c seamCall) (action, bool) {
 	g.sim.MaybeYield("seam:" + c.Kind)
 	ex := g.ex
 	ex.stats.SeamCalls++
+	if g.callCap > 0 {
+		// one API call that issues more storage calls than half the bytes on the
+		// disk plus a wide margin is scanning without end (each iteration comes
+		// through here, so this is reached deterministically, long before the
+		// wall-clock watchdog). Only harness tasks: they have a recovering wrapper.
+		g.callSeams++
+		if g.callSeams > g.callCap {
+			if t := g.sim.Current(); t != nil && t.Harness {
+				g.callSeams = 0
+				panic(endlessScan{calls: g.callCap, kind: c.Kind, file: c.File})
+			}
+		}
+	}
 	ex.seamKinds.Add(c.Kind, 1)
 	act := ex.faultFor(c)
 	if act == actCrashBefore {
 		g.crash(c, "before")
 	}
 	return act, true
+}
+
+// endlessScan is raised through the code under test into the wrapper of the
+// API call that never ends.
+type endlessScan struct {
+	calls      int
+	kind, file string
+}
+
+// beginCall resets the per-call storage-call budget.
+func (g *Gen) beginCall() {
+	g.callSeams = 0
+	if g.ex.cfg.Profile == "C15" || g.ex.disk == nil {
+		g.callCap = 0 // 64 MiB files: the wall-clock watchdog decides
+		return
+	}
+	total := 0
+	for _, n := range g.ex.disk.List() {
+		if ino := g.ex.disk.Lookup(n); ino != nil {
+			total += len(ino.Vol)
+		}
+	}
+	g.callCap = total/2 + 200000
 }
 
 func (g *Gen) crash(c seamCall, when string) {
